@@ -101,12 +101,23 @@
 //! [pkarr relay servers]: https://pkarr.org/#servers
 //! [`MemoryLookup`]: memory::MemoryLookup
 
+#[cfg(not(iroh_verif))]
 use std::{
     borrow::{Borrow, Cow},
     pin::Pin,
     sync::{Arc, RwLock},
     task::{Poll, ready},
 };
+#[cfg(iroh_verif)]
+use std::{
+    borrow::{Borrow, Cow},
+    pin::Pin,
+    sync::Arc,
+    task::{Poll, ready},
+};
+
+#[cfg(iroh_verif)]
+use iroh_base::verif::sync::RwLock;
 
 use iroh_base::{EndpointAddr, EndpointId};
 pub use iroh_dns::{ParseError, endpoint_info::AddrFilter};
